@@ -456,6 +456,10 @@ func (p *proxyConn) writeResponse(res *http.Response) error {
 		if req.Method == http.MethodConnect && res.StatusCode/100 == 2 {
 			res.Close = false
 		}
+		// The same holds for a relayed protocol upgrade, the connection becomes a tunnel.
+		if res.StatusCode == http.StatusSwitchingProtocols {
+			res.Close = false
+		}
 	}
 
 	// HTTP/1.0 clients cannot decode chunked transfer coding, delimit the body by closing the connection.
